@@ -120,7 +120,7 @@ func (a *Act) callStatic(st *State, f *ssa.Function, bindings []Val, args []Val,
 }
 
 func (a *Act) canInline(f *ssa.Function) bool {
-	if len(f.Blocks) == 0 || a.depth >= 3 {
+	if len(f.Blocks) == 0 || a.depth >= 6 {
 		return false
 	}
 	if con := a.eng.contracts[fnKey(f)]; con != nil && con.Inline {
